@@ -270,24 +270,41 @@ func forwardCursor(c *core.Ctx, idx ssa.Value, site ssa.Instruction) (string, bo
 		}
 	}
 	if sawMinus {
-		// `if cursor < 0 { cursor = 0 }` dominating the site
-		fn := site.Parent()
-		ok := false
-		for _, st := range k.stores(fn) {
-			if n, isK := constInt(st.Val); !isK || n != 0 {
-				continue
-			}
-			for _, g := range an.GuardsOf(st.Block()) {
-				bo, isB := g.Cond.(*ssa.BinOp)
-				if isB && bo.Op == token.LSS && g.Polarity {
-					if l, isL := bo.X.(*ssa.UnOp); isL && l.Op == token.MUL && k.addrIs(l.X) {
-						if z, isZ := constInt(bo.Y); isZ && z == 0 && g.If.Block().Dominates(site.Block()) {
-							ok = true
+		// `if cursor < 0 { cursor = 0 }` dominating the site — in the site's own function, or in every caller of a
+		// helper that holds the site, before the call
+		var resetBefore func(at ssa.Instruction, depth int) bool
+		resetBefore = func(at ssa.Instruction, depth int) bool {
+			fn := at.Parent()
+			for _, st := range k.stores(fn) {
+				if n, isK := constInt(st.Val); !isK || n != 0 {
+					continue
+				}
+				for _, g := range an.GuardsOf(st.Block()) {
+					bo, isB := g.Cond.(*ssa.BinOp)
+					if isB && bo.Op == token.LSS && g.Polarity {
+						if l, isL := bo.X.(*ssa.UnOp); isL && l.Op == token.MUL && k.addrIs(l.X) {
+							if z, isZ := constInt(bo.Y); isZ && z == 0 && g.If.Block().Dominates(at.Block()) {
+								return true
+							}
 						}
 					}
 				}
 			}
+			if depth <= 0 || k.fv != nil {
+				return false
+			}
+			sites := an.CallSitesOf(c, fn)
+			if len(sites) == 0 {
+				return false
+			}
+			for _, cs := range sites {
+				if _, isCall := cs.(*ssa.Call); !isCall || !resetBefore(cs, depth-1) {
+					return false
+				}
+			}
+			return true
 		}
+		ok := resetBefore(site, 2)
 		if !ok {
 			return "the cursor starts at -1 and is not reset under `cursor < 0` before this use", false
 		}
